@@ -322,12 +322,18 @@ def overflow_bits(d):
   return d.overflow.numpy().copy()
 
 
-def full_m(m, d, world=0):
-  """Dense inertia matrix of one world from MJWarp's own storage, float64."""
-  import mujoco_warp as mjw  # noqa
+def full_m(mjm, d, world=0):
+  """Dense inertia matrix of one world from MJWarp's own CSR storage (same layout as mjd.M), float64."""
+  import mujoco
 
-  nv = m.nv
-  M = d.M.numpy()[world]
-  if M.ndim == 2 and M.shape[0] >= nv and M.shape[1] >= nv and not m.is_sparse:
-    return M[:nv, :nv].astype(np.float64)
-  return None
+  out = np.zeros((mjm.nv, mjm.nv))
+  mujoco.mju_sym2dense(out, d.M.numpy()[world].astype(np.float64), mjm.M_rownnz, mjm.M_rowadr, mjm.M_colind)
+  return out
+
+
+def mj_full_m(mjm, mjd):
+  import mujoco
+
+  out = np.zeros((mjm.nv, mjm.nv))
+  mujoco.mj_fullM(mjm, out, mjd.qM)
+  return out
